@@ -13,7 +13,8 @@ EXPLANATION = (
     "FinishDone result only through the last-block flush; each flush_block_only is followed by the avail_out == 0 test; "
     "`insert` is written before the epilogue. CUT in deflate_slow: the deferred literal (match_available) is tallied before the "
     "epilogue's flush. ATOM: duplicate-flush suppression in deflate() (avail_in == 0 && rank(flush) <= rank(old) && flush != "
-    "Finish) and rank_flush constants. That the emitted prefix actually decodes is not decided.")
+    "Finish) and rank_flush constants. That the emitted prefix actually decodes is not decided. "
+    "FullFlush: head.fill(0) on every path through the arm, position reset conditional on lookahead == 0 only. SIB/ref-conditions: the elementary conditions and calls of the zlib-ng functions this code was ported from (oracles/condparity.json, frozen from the vendored C sources) keep a counterpart in the paired zlib-rs function.")
 
 CLAIM = dict(
     text="Static cut-set proofs over MIR that every flush arm emits its marker/aligns/clears history before the pending "
